@@ -782,12 +782,18 @@ impl<Meta: ObjectMeta> AppendArchive<Meta> {
     /// The method writes the index to the file. Thus it must be called when
     /// you are done appening objects.
     pub fn finalize(&mut self) -> Result<(), ArchiveError> {
+        #[cfg(feature = "verif-hooks")]
+        crate::verif::kill_point("archive.append.finalize.begin");
         // Write the index.
         self.file.seek(SeekFrom::Start(
             usize_to_u64(MAGIC_SIZE) + ArchiveMeta::size()
         ))?;
         self.index.write(&mut self.file)?;
+        #[cfg(feature = "verif-hooks")]
+        crate::verif::kill_point("archive.append.finalize.before_flush");
         self.file.flush()?;
+        #[cfg(feature = "verif-hooks")]
+        crate::verif::kill_point("archive.append.finalize.end");
         Ok(())
     }
 }
@@ -1341,6 +1347,8 @@ impl Storage {
         start: u64,
         op: impl FnOnce(&mut StorageWrite) -> Result<T, ArchiveError>
     ) -> Result<T, ArchiveError> {
+        #[cfg(feature = "verif-hooks")]
+        crate::verif::kill_point("archive.storage.write.begin");
         let mut write = if self.size == start {
             StorageWrite::new_append(self)?
         }
@@ -1348,14 +1356,20 @@ impl Storage {
             StorageWrite::new(self, start)?
         };
         let res = op(&mut write)?;
+        #[cfg(feature = "verif-hooks")]
+        crate::verif::kill_point("archive.storage.write.before_finish");
         if write.finish()? {
             self.mmap()?;
         }
+        #[cfg(feature = "verif-hooks")]
+        crate::verif::kill_point("archive.storage.write.end");
         Ok(res)
     }
 
     /// Sets the storage to the given length.
     pub fn set_len(&mut self, len: u64) -> Result<(), ArchiveError> {
+        #[cfg(feature = "verif-hooks")]
+        crate::verif::kill_point("archive.storage.set_len");
         self.file.lock().set_len(len)?;
         self.mmap()?;
         Ok(())
@@ -1620,6 +1634,8 @@ impl<'a> StorageWrite<'a> {
     pub fn write(
         &mut self, data: &[u8]
     ) -> Result<(), ArchiveError> {
+        #[cfg(feature = "verif-hooks")]
+        crate::verif::kill_point("archive.storage.write.chunk");
         match self.0 {
             #[cfg(unix)]
             WriteInner::Mmap { ref mut mmap, ref mut pos } => {
